@@ -9,7 +9,7 @@ import warnings
 import numpy as np
 
 from . import interp, probes
-from .common import digest
+from .common import scribble, digest
 from .replay_poplayout import build_leaf, draw_values, Reference, features as pl_features
 from .replay_filters import reference as filter_reference
 
@@ -91,6 +91,7 @@ def replay_case(arg):
         return fails, cnt
     # ---- names, IDs, counts ---------------------------------------------------------------
     try:
+        scribble(post)
         ids = [('None' if i is None else i) for i in post.get_id()]
         obs = dict(n_parameters=int(post.n_parameters()), n_top=int(post.n_parameters(exclude_bottom_level=True)),
                    names=list(post.get_parameter_names()), ids=ids,
